@@ -145,15 +145,19 @@ class PatchHooks(Hooks):
         if d in ("sys.modules.get", "importlib.import_module"):
             m = Obj("module", kind="module")
             dd = Dct()
-            dd.shared_name = "module.__dict__"
+            mn = args[0] if args else None
+            mn = mn.v if isinstance(mn, Const) else (mn.text() if hasattr(mn, "text") else tagof(mn))
+            dd.shared_name = "module.__dict__:nonsf" if "nonsf" in str(mn) else "module.__dict__"
             m.attrs["__dict__"] = dd
             return m
         return NotImplemented
 
     def dict_get(self, I, dct, key, site):
+        if dct.shared_name == "module.__dict__:nonsf":
+            return Ext("nonsf.lib.connect")  # a function that is not one of the connector's
         if dct.shared_name == "module.__dict__":
             k = key.v if isinstance(key, Const) else None
-            return Ext("snowflake.connector.pandas_tools.write_pandas" if k == "write_pandas" else "snowflake.connector.connect")
+            return Ext("snowflake.connector.pandas_tools.write_pandas" if k in ("write_pandas", "wp") else "snowflake.connector.connect")
         return NotImplemented
 
     def isinstance_unknown(self, I, v, cls):
@@ -174,6 +178,7 @@ def rule_targets(ctx):
         ("a list of extras, then none", [Lst([Const("mymod.connect"), Const("other.write_pandas")]), None]),
         ("one extra as a string, then a different one", [Const("mymod.connect"), Lst([Const("third.connect")])]),
         ("no extras, twice", [None, None]),
+        ("from-import targets under other names (app.sf_connect, app.wp)", [Lst([Const("app.sf_connect"), Const("app.wp")])]),
     ]
     n = 0
     for label, seq in scenarios:
@@ -211,7 +216,7 @@ def rule_targets(ctx):
                 bad = []
                 for t, fake in got:
                     tv = t.v if isinstance(t, Const) else ""
-                    if tv.endswith("write_pandas"):
+                    if tv.endswith(("write_pandas", ".wp")):
                         okf = isinstance(fake, Func) and (fake.mod, fake.qual) == ("pandas_tools", "write_pandas")
                     else:
                         okf = isinstance(fake, Func) and fake.qual.endswith(".connect") and fake.self_val is inst and inst is not None
@@ -222,7 +227,28 @@ def rule_targets(ctx):
                     ctx.violation("C20.c", "__init__", "patch", f"fake for {bad[0].split(' -> ')[0]}", loc,
                                   f"patch() installs {bad}: connect targets must call this patch()'s own FakeSnow instance and write_pandas the fake")
             break
-    ctx.floor("C20.c patch() calls interpreted", n, 6)
+    ctx.floor("C20.c patch() calls interpreted", n, 7)
+    # a target that holds something other than the connector's functions is refused, whatever it is called
+    hooks = []
+
+    def fac2():
+        h = PatchHooks()
+        hooks.append(h)
+        return h
+
+    def run2(I):
+        I.hooks.calls.append([])
+        return I.call(I.global_lookup("__init__", "patch"), [], {"extra_targets": Lst([Const("nonsf.lib.connect")])}, None)
+
+    for p, h in zip(explore(prog, fac2, run2, max_paths=16), hooks):
+        extra_patched = [t for t, _ in h.calls[-1] if isinstance(t, Const) and t.v == "nonsf.lib.connect"]
+        ok = p.outcome == "raise" and not extra_patched
+        ctx.ob("C20.c", "an extra target holding a non-snowflake function (even one called `connect`) is refused", ok, loc)
+        if not ok:
+            ctx.violation("C20.c", "__init__", "patch", "non-snowflake target accepted", loc,
+                          "`patch(extra_targets=['nonsf.lib.connect'])`, where that name holds a function that is not the connector's, is "
+                          "accepted and replaced by the fake: targets must be recognised by the object they hold, not by their name")
+        break
 
 
 def _parser_options(prog):
